@@ -991,6 +991,23 @@ def run_long(shard, ctx):
     env = I.Env(2, 2, "std", shard["variant"], shard["embed"])
     env16 = I.Env(2, 2, "asym", shard["variant"], shard["embed"], "uint16", "uint8")
     l1 = long_letters(n, 1)
+    # a defect in the growth code can double a table without end: cap the address space of this worker while the
+    # family runs (the tables needed here are < 1 MB), so that it shows as a MemoryError violation instead of
+    # exhausting the machine
+    import resource
+
+    old_as = resource.getrlimit(resource.RLIMIT_AS)
+    cap = 3 << 30
+    if old_as[0] == resource.RLIM_INFINITY or old_as[0] > cap:
+        resource.setrlimit(resource.RLIMIT_AS, (cap, old_as[1]))
+    try:
+        _run_long_pairs(ctx, env, env16, l1, n, tier)
+    finally:
+        resource.setrlimit(resource.RLIMIT_AS, old_as)
+    _mutated(ctx, env, "long")
+
+
+def _run_long_pairs(ctx, env, env16, l1, n, tier):
     for m in LONG_LENS[tier]:
         l2 = long_letters(m, 2)
         for seed in long_seeds(n, m, tier):
@@ -1005,7 +1022,6 @@ def run_long(shard, ctx):
             for band in ((-n, m), (-3, 3), (m - 5, m + 50), (-(n + 50), -(n - 5)), (-40, 1)):
                 for gap, local in ((-2, False), (-2, True), ((-3, -1), True)):
                     check_banded_long(ctx, env, l1, l2, band, gap, local)
-    _mutated(ctx, env, "long")
 
 
 # ---------------------------------------------------------------------------
